@@ -67,13 +67,15 @@ def _exact(case):
     free = [f - 1 for f in case['free']]
     rs = np.random.RandomState(sum(case['cond']) * 31 + d)
     probs = []
-    for container in ('dict', 'series'):
+    for container in ('dict', 'series', 'dict-reversed', 'series-reversed'):
         vals = {}
         for j in cond:
             col = df[cols[j]]
             k = rs.choice([-0.7, 0.4, 1.3, 6.0, -9.0])         # inside and far outside the training range
             vals[cols[j]] = float(col.mean() + k * col.std())
-        conditions = dict(vals) if container == 'dict' else pd.Series(vals)
+        if container.endswith('reversed'):          # conditions given in another order than the training columns
+            vals = dict(reversed(list(vals.items())))
+        conditions = dict(vals) if container.startswith('dict') else pd.Series(vals)
         fp0 = P.fp_arg(conditions)
         z = np.array([stats.norm.ppf(np.clip(m.univariates[j].cdf(np.array([vals[cols[j]]])), EPSILON, 1 - EPSILON))[0] for j in cond])
         try:
@@ -99,7 +101,6 @@ def _exact(case):
         S = np.array(case['snum'], dtype=float) / case['sden']
         # the library orders the free columns as pandas' Index.difference does (sorted by name)
         order = sorted(range(len(free)), key=lambda i: cols[free[i]])
-        corder = sorted(range(len(cond)), key=lambda i: list(conditions.keys() if container == 'dict' else conditions.index).index(cols[cond[i]]))
         emean = (B @ z)[order]
         ecov = S[np.ix_(order, order)]
         if mean.shape != emean.shape or not np.allclose(mean, emean, rtol=1e-9, atol=1e-10):
